@@ -25,8 +25,8 @@ INF = float('inf')
 
 
 class Region(object):
-    def __init__(self, W):
-        lo, hi = -(1 << (W - 1)), (1 << (W - 1)) - 1
+    def __init__(self, W, unsigned=False):
+        lo, hi = (0, (1 << W) - 1) if unsigned else (-(1 << (W - 1)), (1 << (W - 1)) - 1)
         self.lo = {(1, 0): lo, (0, 1): lo, (1, 1): 2 * lo, (1, -1): lo - hi}
         self.hi = {(1, 0): hi, (0, 1): hi, (1, 1): 2 * hi, (1, -1): hi - lo}
 
@@ -92,28 +92,39 @@ class NeedSplit(Exception):
         self.lf, self.thr = lf, thr
 
 
+def _octagonal(lf):
+    return (abs(lf[0]), abs(lf[1])) in ((1, 0), (0, 1), (1, 1))
+
+
 class Analyser(object):
-    def __init__(self, a, b, W, sign):
+    """unsigned=False: operands and every pattern are read as two's-complement signed values;
+    unsigned=True: as unsigned values (uadd.sat / usub.sat)."""
+
+    def __init__(self, a, b, W, sign, unsigned=False):
         self.ta = T.single_term(a)
         self.tb = T.single_term(b)
         if self.ta is None or self.tb is None:
             raise NotInFragment('operands are not whole atoms')
         self.W = W
         self.sign = sign            # +1: x + y, -1: x - y
+        self.unsigned = unsigned
         self.leaves = 0
         self.paths = 0
 
+    def rng(self, w):
+        return (0, (1 << w) - 1) if self.unsigned else (-(1 << (w - 1)), (1 << (w - 1)) - 1)
+
     # ---- exact values ---------------------------------------------------
     def _fit(self, lf, w, R):
-        """the signed reading of the w-bit pattern congruent to lf: lf + m*2^w with one m for the whole region"""
+        """the reading of the w-bit pattern congruent to lf: lf + m*2^w with one m for the whole region"""
         lo, hi = R.range_of(lf)
-        half = 1 << (w - 1)
-        m = -((lo + half) // (1 << w))
-        if lo + m * (1 << w) >= -half and hi + m * (1 << w) < half:
+        rlo, rhi = self.rng(w)
+        m = -((lo - rlo) // (1 << w))
+        if lo + m * (1 << w) >= rlo and hi + m * (1 << w) <= rhi:
             return (lf[0], lf[1], lf[2] + m * (1 << w))
-        if (abs(lf[0]), abs(lf[1])) in ((1, 0), (0, 1), (1, 1)):
+        if _octagonal(lf):
             # the wrap point cuts the region in two: analyse both parts (walk() catches this)
-            raise NeedSplit(lf, half - 1 - m * (1 << w))
+            raise NeedSplit(lf, rhi - m * (1 << w))
         raise NotInFragment('a modular sum may wrap inside the region')
 
     def _var(self, t):
@@ -123,13 +134,33 @@ class Analyser(object):
             return (0, 1, 0)
         return None
 
+    def _top_known(self, v, n, R):
+        """is the top bit of the n-bit pattern with reading v set?  True / False, or a split request"""
+        lo, hi = R.range_of(v)
+        if self.unsigned:
+            half = 1 << (n - 1)
+            if lo >= half:
+                return True
+            if hi < half:
+                return False
+            thr = half - 1
+        else:
+            if hi < 0:
+                return True
+            if lo >= 0:
+                return False
+            thr = -1
+        if _octagonal(v):
+            raise NeedSplit(v, thr)
+        raise NotInFragment('top bit of a value of unknown sign')
+
     def value(self, bv, R):
-        """signed reading of the pattern bv as an exact linear form over the region"""
+        """reading of the pattern bv as an exact linear form over the region"""
         bv = T.canon(bv)
         w = T.width(bv)
         if T.is_const(bv):
             v = T.const_val(bv)
-            return (0, 0, v - (1 << w) if v >> (w - 1) else v)
+            return (0, 0, v - (1 << w) if (v >> (w - 1)) and not self.unsigned else v)
         if len(bv) == 1 and bv[0][0] == 's':
             p = bv[0]
             t = p[1]
@@ -146,55 +177,47 @@ class Analyser(object):
                         lf = self.value(o, R)
                         acc[0] += c * lf[0]; acc[1] += c * lf[1]; acc[2] += c * lf[2]
                     return self._fit(tuple(acc), w, R)
-                if t.kind == 'op' and t.name in ('smin', 'smax'):
-                    raise NotInFragment('min/max leaf')
+                if t.kind == 'op' and t.name == 'not':
+                    lf = self.value(t.ops[0], R)
+                    return self._fit((-lf[0], -lf[1], -lf[2] - 1), w, R)
             raise NotInFragment('term %s' % T.fmt(bv, 2))
-        # extensions / top-bit replacement of one variable:  [v[0+:n] ++ rest]
-        p0 = bv[0]
-        if p0[0] == 's' and p0[2] == 0 and self._var(p0[1]) is not None:
-            t = p0[1]
-            v = self._var(t)
-            n = p0[3]
-            W = t.width
-            rest = bv[1:]
-            lo, hi = R.range_of(v)
-            if n == W:
-                # zero extension / sign extension
-                if all(q[0] == 'c' and q[2] == 0 for q in rest):
-                    if lo >= 0:
-                        return v
-                    if hi < 0:
-                        return (v[0], v[1], v[2] + (1 << W))
-                    raise NotInFragment('zero extension of a value of unknown sign')
-                if len(rest) == 1 and rest[0][0] == 'r' and rest[0][1] == ('s', t, W - 1, 1):
+        # top bit of a W-bit sub-term replaced by a constant or flipped:  [X[0+:W-1] ++ bit]
+        if len(bv) == 2 and bv[0][0] == 's' and bv[0][2] == 0 and bv[0][3] == bv[0][1].width - 1 == w - 1 and T.pw(bv[1]) == 1:
+            t = bv[0][1]
+            top = bv[1]
+            v = self.value((('s', t, 0, w),), R)
+            half = 1 << (w - 1)
+            mode = None
+            if top[0] == 'c':
+                mode = 'set' if top[2] else 'clear'
+            elif top[0] == 's' and top[1].kind == 'op' and top[1].name == 'not' and T.canon(top[1].ops[0]) == (('s', t, w - 1, 1),):
+                mode = 'flip'
+            if mode:
+                isset = self._top_known(v, w, R)
+                if mode == 'flip':
+                    mode = 'clear' if isset else 'set'
+                if (mode == 'set') == isset:
                     return v
-                if len(rest) == 1 and rest[0] == ('s', t, W - 1, 1) and w == W + 1:
-                    return v
-            if n == W - 1 and w == W and len(rest) == 1 and rest[0][0] == 'c' and rest[0][1] == 1:
-                bit = rest[0][2]
-                half = 1 << (W - 1)
-                if lo >= 0:          # low bits are the value itself
-                    return (v[0], v[1], v[2] - half) if bit else v
-                if hi < 0:           # low bits are value + 2^(W-1)
-                    return v if bit else (v[0], v[1], v[2] + half)
-                raise NotInFragment('top bit replaced on a value of unknown sign')
-        # zero / sign extension of an arbitrary narrower sub-term (integer promotion of 8- and 16-bit operands)
-        for n in (8, 16, 32):
+                # setting the top bit adds 2^(w-1) to the pattern: unsigned reading +half, signed reading -half (and conversely)
+                d = half if (mode == 'set') == self.unsigned else -half
+                return (v[0], v[1], v[2] + d)
+        # zero / sign extension of a narrower sub-term (integer promotion of 8- and 16-bit operands)
+        for n in (8, 16, 32, 64):
             if n >= w:
                 break
             low, high = T.canon(T.slice_(bv, 0, n)), T.canon(T.slice_(bv, n, w - n))
-            if T.is_const(high) and T.const_val(high) == 0:
-                v = self.value(low, R)
-                lo, hi = R.range_of(v)
-                if lo >= 0:
-                    return v
-                if hi < 0:
-                    return (v[0], v[1], v[2] + (1 << n))
-                if (abs(v[0]), abs(v[1])) in ((1, 0), (0, 1), (1, 1)):
-                    raise NeedSplit(v, -1)
-                raise NotInFragment('zero extension of a value of unknown sign')
-            if high == T.canon(T.rep(T.topbit(low), w - n)):
-                return self.value(low, R)
+            zx = T.is_const(high) and T.const_val(high) == 0
+            sx = (high == T.canon(T.rep(T.topbit(low), w - n))) or (w - n == 1 and high == T.canon(T.topbit(low)))
+            if not (zx or sx):
+                continue
+            v = self.value(low, R)
+            if zx == self.unsigned:
+                return v                 # the extension that matches the reading
+            isset = self._top_known(v, n, R)
+            if not isset:
+                return v
+            # zero extension of a negative signed value: + 2^n; sign extension of an unsigned value with the top bit: + 2^w - 2^n
+            return (v[0], v[1], v[2] + ((1 << n) if zx else (1 << w) - (1 << n)))
         raise NotInFragment('bit pattern %s' % T.fmt(bv, 2))
 
     # ---- conditions -> DNF of constraint lists ---------------------------
@@ -209,12 +232,20 @@ class Analyser(object):
         if p[0] != 's':
             raise NotInFragment('condition piece')
         t = p[1]
-        v = self._var(t)
-        if v is not None and p[2] == t.width - 1:
-            # sign bit: value < 0
-            return [[(v[0], v[1], -1)]] if want else [[(-v[0], -v[1], 0)]]
+        if p[2] == t.width - 1 and t.width > 1:
+            # top bit of a variable or of any sub-term with an exact value on this region
+            v = self.value((('s', t, 0, t.width),), R)
+            if self.unsigned:
+                half = 1 << (t.width - 1)
+                return [[(-v[0], -v[1], v[2] - half)]] if want else [[(v[0], v[1], half - 1 - v[2])]]
+            return [[(v[0], v[1], -1 - v[2])]] if want else [[(-v[0], -v[1], v[2])]]
         if t.kind != 'op' or t.width != 1:
             raise NotInFragment('condition %s' % T.fmt(c, 2))
+        if t.name == 'xor' and len(t.ops) == 2:
+            a1, a0 = self.cond(t.ops[0], R, True), self.cond(t.ops[0], R, False)
+            b1, b0 = self.cond(t.ops[1], R, True), self.cond(t.ops[1], R, False)
+            pairs = ((a1, b0), (a0, b1)) if want else ((a1, b1), (a0, b0))
+            return [x + y for (A, B) in pairs for x in A for y in B]
         if t.name == 'not':
             return self.cond(t.ops[0], R, not want)
         if t.name in ('and', 'or'):
@@ -226,8 +257,8 @@ class Analyser(object):
                     out = [x + y for x in out for y in alts]
                 return out
             return [a for alts in parts for a in alts]
-        preds = {'slt': 'slt', 'sgt': 'sgt', 'sle': 'sle', 'sge': 'sge', 'eq': 'eq', 'ne': 'ne'}
-        if t.name in preds:
+        pre = 'u' if self.unsigned else 's'
+        if t.name in ('eq', 'ne', pre + 'lt', pre + 'gt', pre + 'le', pre + 'ge'):
             A = self.value(t.ops[0], R)
             B = self.value(t.ops[1], R)
             dx, dy, dk = A[0] - B[0], A[1] - B[1], A[2] - B[2]     # A - B
@@ -235,9 +266,9 @@ class Analyser(object):
             le = [(dx, dy, -dk)]
             gt = [(-dx, -dy, dk - 1)]
             ge = [(-dx, -dy, dk)]
-            table = {'slt': (lt, ge), 'sle': (le, gt), 'sgt': (gt, le), 'sge': (ge, lt)}
-            if t.name in table:
-                return [table[t.name][0 if want else 1]]
+            table = {'lt': (lt, ge), 'le': (le, gt), 'gt': (gt, le), 'ge': (ge, lt)}
+            if t.name[1:] in table and t.name not in ('eq', 'ne'):
+                return [table[t.name[1:]][0 if want else 1]]
             if (t.name == 'eq') == want:
                 return [le + ge]
             return [lt, gt]
@@ -255,7 +286,7 @@ class Analyser(object):
         try:
             return self._walk(bv, R)
         except NeedSplit as sp:
-            if depth > 12:
+            if depth > 16:
                 raise NotInFragment('too many wrap points')
             cx, cy, k = sp.lf
             for alt in ([(cx, cy, sp.thr - k)], [(-cx, -cy, k - sp.thr - 1)]):
@@ -266,25 +297,56 @@ class Analyser(object):
                         return bad
             return None
 
+    def _branch(self, c, arms, R):
+        for want, arm in ((True, arms[0]), (False, arms[1])):
+            for alt in self.cond(c, R, want):
+                r = self.refine(R, alt)
+                if r is not None:
+                    bad = self.walk(arm, r)
+                    if bad:
+                        return bad
+        return None
+
+    def _as_sel(self, t):
+        """(condition, value if true, value if false) of a select or of a min/max in the reading of this analysis"""
+        if t is None or t.kind != 'op':
+            return None
+        if t.name == 'sel':
+            return t.ops
+        pre = 'u' if self.unsigned else 's'
+        if t.name in (pre + 'min', pre + 'max') and len(t.ops) == 2:
+            a, b = t.ops
+            return (T.icmp(pre + ('lt' if t.name.endswith('min') else 'gt'), a, b), a, b)
+        return None
+
     def _walk(self, bv, R):
         bv = T.canon(bv)
         t = T.single_term(bv)
-        if t is not None and t.kind == 'op' and t.name == 'sel':
-            c, x, y = t.ops
-            for want, arm in ((True, x), (False, y)):
-                for alt in self.cond(c, R, want):
-                    r = self.refine(R, alt)
-                    if r is not None:
-                        bad = self.walk(arm, r)
-                        if bad:
-                            return bad
-            return None
+        sv = self._as_sel(t)
+        if sv is not None:
+            c, x, y = sv
+            return self._branch(c, (x, y), R)
+        if t is not None and t.kind == 'op' and t.name == 'sum':
+            # sum(..., sel(c, X, Y), ...) = sel(c, sum(..., X, ...), sum(..., Y, ...))
+            k, coefs = t.attrs
+            for j, o in enumerate(t.ops):
+                to = T.single_term(T.canon(o))
+                sv = self._as_sel(to)
+                if sv is not None and to.width == t.width:
+                    c, x, y = sv
+
+                    def rebuild(repl):
+                        acc = T.const(t.width, k)
+                        for i, (oo, cf) in enumerate(zip(t.ops, coefs)):
+                            acc = T.add(acc, T.mul(repl if i == j else oo, T.const(t.width, cf)))
+                        return acc
+                    return self._branch(c, (rebuild(x), rebuild(y)), R)
         return self.leaf(bv, R)
 
     def leaf(self, bv, R):
         self.leaves += 1
         W = self.W
-        MAX, MIN = (1 << (W - 1)) - 1, -(1 << (W - 1))
+        MIN, MAX = self.rng(W)
         S = (1, self.sign, 0)
         parts = (('the exact result exceeds MAX', [(-1, -self.sign, -MAX - 1)], (0, 0, MAX)),
                  ('the exact result is below MIN', [(1, self.sign, MIN - 1)], (0, 0, MIN)),
@@ -317,11 +379,11 @@ def _show(lf):
     return ' '.join(s)
 
 
-def saturating(got, a, b, W, sign):
+def saturating(got, a, b, W, sign, unsigned=False):
     """-> (True, stats) | (False, reason) | (None, reason: outside the fragment)"""
     try:
-        an = Analyser(a, b, W, sign)
-        R = Region(W)
+        an = Analyser(a, b, W, sign, unsigned)
+        R = Region(W, unsigned)
         R.close()
         bad = an.walk(got, R)
         if bad:
